@@ -6,9 +6,15 @@ import refmodel as R
 FOREIGN = ['#[doc = "text"]', '/// a doc comment', '#[repr(C)]', '#[cfg_attr(all(), allow(dead_code))]', '#[allow(unused)]',
            '#[serde(rename = "x")]', '#[a::b(c, d = 1)]', '#[must_use]', '#[non_exhaustive]', '/** block doc */', '#[rustfmt::skip]', '#[cfg(all())]',
            # foreign *path* attributes whose last segment merely looks like an owned name: never derive_ex's to strip
-           '#[probe::debug]', '#[clippy::eq]', '#[a::hash(x)]', '#[x::derive_ex(Clone)]', '#[tool::default]', '#[a::b::ord(reverse)]', '#[::partial_eq::x]']
+           '#[probe::debug]', '#[clippy::eq]', '#[a::hash(x)]', '#[x::derive_ex(Clone)]', '#[tool::default]', '#[a::b::ord(reverse)]', '#[::partial_eq::x]',
+           # single-identifier attributes spelled like an owned name up to case / underscores: foreign
+           '#[Hash]', '#[Eq]', '#[Partial_Eq(x)]', '#[partialeq]', '#[ORD]', '#[Debug]', '#[DEFAULT = 1]', '#[Derive_Ex(Clone)]', '#[deriveex]', '#[partialord(reverse)]',
+           # attributes the generator reads to decide about lint attributes of the impls: both entry points must read them alike
+           '#[expect(deprecated)]', '#[allow(deprecated)]', '#[deprecated]', '#[expect(warnings)]', '#[warn(deprecated)]', '#[deny(unused)]', '#[deprecated(note = "n")]',
+           '#[allow(dead_code, reason = "kept for later")]', '#[expect(unused, reason = "x; y")]', '#[allow(clippy::deprecated_cfg_attr)]', '#[allow()]']
 FIELD_FOREIGN = ['#[doc = "f"]', '/// field doc', '#[serde(skip)]', '#[allow(dead_code)]', '#[a::b]', '#[cfg(all())]',
-                 '#[probe::debug(ignore)]', '#[clippy::eq]', '#[a::hash = 1]', '#[tool::default(3)]', '#[a::partial_ord(key = x)]', '#[::ord::y]', '#[x::derive_ex(Clone)]']
+                 '#[probe::debug(ignore)]', '#[clippy::eq]', '#[a::hash = 1]', '#[tool::default(3)]', '#[a::partial_ord(key = x)]', '#[::ord::y]', '#[x::derive_ex(Clone)]',
+                 '#[Hash(ignore)]', '#[Eq]', '#[Partial_Eq]', '#[partialeq(key = x)]', '#[ORD]', '#[Debug(ignore)]', '#[Default(3)]', '#[Partial_Ord(reverse)]', '#[expect(deprecated)]', '#[allow(warnings)]', '#[deprecated]', '#[allow(dead_code, reason = "field")]']
 VIS = ["", "pub ", "pub(crate) ", "pub(super) ", "pub(in crate::m) "]
 GENERICS = [("", ""), ("<T>", ""), ("<T: Clone, U>", ""), ("<'a, T: 'a>", ""), ("<T = u8>", ""), ("<T, const N: usize>", ""), ("<const N: usize = 3>", ""),
             ("<T>", " where T: Copy"), ("<'a, 'b: 'a, T>", " where T: 'b + Sized, u8: Copy")]
